@@ -19,7 +19,8 @@ EXPLANATION = (
     "of safety. A count above the table or baseline — a new panic-capable site in decode-reachable code, e.g. "
     "`?`->unwrap, get->index, try_from->as followed by slicing — is the violation. Also re-checks the guards that keep "
     "lazy views safe (BAM validate on read, BGZF seek offset bound)."
-    " The indexing class K3 also covers std functions that assert a precondition on their arguments (Ord::clamp, step_by, div_euclid/rem_euclid, div_ceil, ilog*, from_digit), auto-discharged for constant arguments.")
+    " The indexing class K3 also covers std functions that assert a precondition on their arguments (Ord::clamp, step_by, div_euclid/rem_euclid, div_ceil, ilog*, from_digit), auto-discharged for constant arguments."
+    " (L) no endless loop: every loop around fill_buf has an exit controlled by the emptiness of the window (an empty window is BufRead's only EOF signal; consume(0) changes nothing). (P) field bounds stay inside the buffer: a CR popped from a caller-provided buffer was read by the same call (count >= 2 guard) or every caller hands over an empty buffer (genuine defect F30, repaired).")
 ASSUMPTIONS = [
     "the baseline sites (K2/K3/K4 not auto-discharged) are undecided, not safe: the claim for them is 'nothing new'",
     "class-hierarchy analysis over-approximates dynamic dispatch (more obligations, never fewer); no fn-pointer fields exist in workspace ADTs",
